@@ -63,11 +63,11 @@ def grep_gate():
 
 def regen():
     """Regenerate Gen/*.v from /repo (translators); returns list of (file, changed)."""
-    gen = os.path.join(VERIF, "tools", "gen_consts.py")
-    if os.path.exists(gen):
+    import glob
+    for gen in sorted(glob.glob(os.path.join(VERIF, "tools", "gen_*.py"))):
         rc, out, err = sh([sys.executable, gen, REPO, os.path.join(COQ, "theories", "Gen")])
         if rc != 0:
-            return False, out + err
+            return False, os.path.basename(gen) + ": " + out + err
     return True, ""
 
 
